@@ -13,6 +13,14 @@
 //          null pointer argument), unchecked_get<I> and operator[] on the active alternative in
 //          all four value categories, visit / visit_with_index with one variant in all four
 //          categories and with an additional non-variant argument.
+//
+// Round 2 (extra configurations in MC_PART 1-3, MC_PART 5): alternative lists with DUPLICATE types (variant<int,int>,
+// variant<int,float,int>, variant<Tracked,Tracked>, ...) and with 5-8 alternatives.  With a duplicate
+// type everything that names an alternative by type is ill-formed in std and in tetl alike
+// (in_place_type, emplace<T>, get_if<T>, holds_alternative, converting construction/assignment), so
+// those configurations run the index-only menu (in_place_index, emplace<I>, get_if<I>, index(),
+// unchecked_get<I>, operator[], copy/move construction and assignment, swap, relational operators,
+// visit / visit_with_index with one, two and - up to three alternatives - three variants).
 #include "c07_common.hpp"
 
 #include <etl/variant.hpp>
@@ -102,6 +110,9 @@ struct LogVI {
 
 struct NoExtra { };
 
+template <typename T, typename... Us>
+inline constexpr std::size_t count_of = (std::size_t(0) + ... + (std::is_same_v<T, Us> ? 1 : 0));
+
 // Bytes: make the object representation part of the state key (only sensible when all alternatives
 // have one size; with overlapping alternatives of different sizes the stale-byte residue multiplies
 // the state count by three orders of magnitude without reaching new code)
@@ -115,6 +126,8 @@ struct VariantSys {
     static constexpr bool tracked  = any_tracked_v<Ts...>;
     static constexpr bool copyable = (std::is_copy_constructible_v<Ts> && ...);
     static constexpr bool has_x    = !std::is_same_v<X, NoExtra>;
+    /// every alternative type occurs once: the by-type API (and converting construction/assignment) is well-formed
+    static constexpr bool unique = ((count_of<Ts, Ts...> == 1) && ...);
     template <std::size_t I>
     using EA = std::tuple_element_t<I, std::tuple<Ts...>>;
     template <std::size_t I>
@@ -130,14 +143,34 @@ struct VariantSys {
         bool const t[] = {std::is_same_v<Ts, etl::monostate>...};
         return t[i];
     }
+    // (with a duplicate alternative type the traits below must not even be instantiated: tetl's alternative
+    // selector inherits from one functor per alternative, and a duplicate base class is a hard error)
+    template <typename VV, typename MM, typename A, typename B>
+    static constexpr bool both_constructible()
+    {
+        if constexpr (unique) {
+            return std::is_constructible_v<VV, A> && std::is_constructible_v<MM, B>;
+        } else {
+            return false;
+        }
+    }
+    template <typename VV, typename MM, typename A, typename B>
+    static constexpr bool both_assignable()
+    {
+        if constexpr (unique) {
+            return std::is_assignable_v<VV&, A> && std::is_assignable_v<MM&, B>;
+        } else {
+            return false;
+        }
+    }
     template <std::size_t I>
-    static constexpr bool conv_r_ok = std::is_constructible_v<V, EA<I>> && std::is_constructible_v<M, MA<I>>;
+    static constexpr bool conv_r_ok = both_constructible<V, M, EA<I>, MA<I>>();
     template <std::size_t I>
-    static constexpr bool conv_l_ok = std::is_constructible_v<V, EA<I> const&> && std::is_constructible_v<M, MA<I> const&>;
+    static constexpr bool conv_l_ok = both_constructible<V, M, EA<I> const&, MA<I> const&>();
     template <std::size_t I>
-    static constexpr bool asg_r_ok = std::is_assignable_v<V&, EA<I>> && std::is_assignable_v<M&, MA<I>>;
+    static constexpr bool asg_r_ok = both_assignable<V, M, EA<I>, MA<I>>();
     template <std::size_t I>
-    static constexpr bool asg_l_ok = std::is_assignable_v<V&, EA<I> const&> && std::is_assignable_v<M&, MA<I> const&>;
+    static constexpr bool asg_l_ok = both_assignable<V, M, EA<I> const&, MA<I> const&>();
 
     std::string name() const
     {
@@ -174,13 +207,15 @@ struct VariantSys {
         for (int i = 0; i < int(N); ++i) {
             for (int k = 0; k < (unit_at(std::size_t(i)) ? 1 : K); ++k) {
                 out.push_back({v_in_place_index, i, k});
-                out.push_back({v_in_place_type, i, k});
-                out.push_back({v_conv_r, i, k});
-                if constexpr (copyable) { out.push_back({v_conv_l, i, k}); }
                 out.push_back({m_emplace_index, i, k});
-                out.push_back({m_emplace_type, i, k});
-                out.push_back({a_conv_r, i, k});
-                if constexpr (copyable) { out.push_back({a_conv_l, i, k}); }
+                if constexpr (unique) {
+                    out.push_back({v_in_place_type, i, k});
+                    out.push_back({v_conv_r, i, k});
+                    if constexpr (copyable) { out.push_back({v_conv_l, i, k}); }
+                    out.push_back({m_emplace_type, i, k});
+                    out.push_back({a_conv_r, i, k});
+                    if constexpr (copyable) { out.push_back({a_conv_l, i, k}); }
+                }
             }
         }
         if constexpr (has_x) {
@@ -192,7 +227,7 @@ struct VariantSys {
         if constexpr (copyable) {
             out.push_back({v_copy, 0, 0});
             out.push_back({self_copy_assign, 0, 0});
-            out.push_back({a_alias, int(s.m.index()), 0});
+            if constexpr (unique) { out.push_back({a_alias, int(s.m.index()), 0}); }
         }
         out.push_back({v_move, 0, 0});
         out.push_back({self_move_assign, 0, 0});
@@ -270,8 +305,10 @@ struct VariantSys {
             cls = "general";
             with_index<N>(std::size_t(a.a), [&](auto I) {
                 constexpr std::size_t i = decltype(I)::value;
-                s.recreate(etl::in_place_type<EA<i>>, make<EA<i>>(a.b));
-                m = M(std::in_place_type<MA<i>>, make<MA<i>>(a.b));
+                if constexpr (unique) {
+                    s.recreate(etl::in_place_type<EA<i>>, make<EA<i>>(a.b));
+                    m = M(std::in_place_type<MA<i>>, make<MA<i>>(a.b));
+                }
             });
             break;
         }
@@ -354,9 +391,11 @@ struct VariantSys {
             cls = cat(rel(m.index(), std::size_t(a.a)), "/", cls);
             with_index<N>(std::size_t(a.a), [&](auto I) {
                 constexpr std::size_t i = decltype(I)::value;
-                auto& ret               = v.template emplace<EA<i>>(make<EA<i>>(a.b));
-                m.template emplace<MA<i>>(make<MA<i>>(a.b));
-                ceq(cx, "C07", subj, cls, "returned reference is the new alternative", &ret == etl::get_if<i>(&v), true);
+                if constexpr (unique) {
+                    auto& ret = v.template emplace<EA<i>>(make<EA<i>>(a.b));
+                    m.template emplace<MA<i>>(make<MA<i>>(a.b));
+                    ceq(cx, "C07", subj, cls, "returned reference is the new alternative", &ret == etl::get_if<i>(&v), true);
+                }
             });
             break;
         }
@@ -524,6 +563,11 @@ struct VariantSys {
                 int const rm = std::visit(LogV{&lm}, my, mx, my);
                 ceq(cx, "C07", "visit(F,variant,variant,variant)", cls, "invocations", le, lm);
                 ceq(cx, "C07", "visit(F,variant,variant,variant)", cls, "result", re, rm);
+                std::string li;
+                int const ri     = etl::visit_with_index(LogVI{&li}, cy, x, cy);
+                std::string want = cat("#", my.index(), "=", mval(my), " #", mx.index(), "=", mval(mx), " #", my.index(), "=", mval(my), " ");
+                ceq(cx, "C07", "visit_with_index(F,variant,variant,variant)", cls, "invocations", li, want);
+                ceq(cx, "C07", "visit_with_index(F,variant,variant,variant)", cls, "result", ri, ((1 * 7 + mval(my) + 2) * 7 + mval(mx) + 2) * 7 + mval(my) + 2);
             }
             break;
         }
@@ -568,27 +612,32 @@ struct VariantSys {
         [&]<std::size_t... I>(std::index_sequence<I...>) {
             auto one = [&](auto Ic) {
                 constexpr std::size_t i = decltype(Ic)::value;
-                ceq(cx, "C07", "holds_alternative<T>(variant)", cls, cat("holds_alternative<", aname<EA<i>>(), ">"), etl::holds_alternative<EA<i>>(cv),
-                    std::holds_alternative<MA<i>>(cm));
                 auto* pi        = etl::get_if<i>(&v);
                 auto const* pci = etl::get_if<i>(&cv);
-                auto* pt        = etl::get_if<EA<i>>(&v);
-                auto const* pct = etl::get_if<EA<i>>(&cv);
                 static_assert(std::is_same_v<decltype(pi), EA<i>*> && std::is_same_v<decltype(pci), EA<i> const*>);
-                static_assert(std::is_same_v<decltype(pt), EA<i>*> && std::is_same_v<decltype(pct), EA<i> const*>);
                 auto const* pm = std::get_if<i>(&cm);
                 ceq(cx, "C07", "get_if<I>(variant*)", cls, cat("get_if<", i, "> null-ness"), pi == nullptr, pm == nullptr);
                 ceq(cx, "C07", "get_if<I>(variant*)", cls, cat("get_if<", i, "> const null-ness"), pci == nullptr, pm == nullptr);
-                ceq(cx, "C07", "get_if<T>(variant*)", cls, cat("get_if<", aname<EA<i>>(), "> null-ness"), pt == nullptr, pm == nullptr);
-                ceq(cx, "C07", "get_if<T>(variant*)", cls, cat("get_if<", aname<EA<i>>(), "> const null-ness"), pct == nullptr, pm == nullptr);
-                if (pm != nullptr && pi != nullptr && pci != nullptr && pt != nullptr && pct != nullptr) {
+                if (pm != nullptr && pi != nullptr && pci != nullptr) {
                     ceq(cx, "C07", "get_if<I>(variant*)", cls, "value", val(*pi), val(*pm));
-                    ceq(cx, "C07", "get_if<I>(variant*)", cls, "all accessors refer to one object", pi == pci && pi == pt && pi == pct && pi == &etl::unchecked_get<i>(v), true);
+                    ceq(cx, "C07", "get_if<I>(variant*)", cls, "all accessors refer to one object", pi == pci && pi == &etl::unchecked_get<i>(v), true);
                 }
                 V* nv        = nullptr;
                 V const* ncv = nullptr;
                 ceq(cx, "C07", "get_if<I>(variant*)", "null_pointer", "get_if<I>(nullptr)", etl::get_if<i>(nv) == nullptr && etl::get_if<i>(ncv) == nullptr, true);
-                ceq(cx, "C07", "get_if<T>(variant*)", "null_pointer", "get_if<T>(nullptr)", etl::get_if<EA<i>>(nv) == nullptr && etl::get_if<EA<i>>(ncv) == nullptr, true);
+                if constexpr (unique) {
+                    ceq(cx, "C07", "holds_alternative<T>(variant)", cls, cat("holds_alternative<", aname<EA<i>>(), ">"), etl::holds_alternative<EA<i>>(cv),
+                        std::holds_alternative<MA<i>>(cm));
+                    auto* pt        = etl::get_if<EA<i>>(&v);
+                    auto const* pct = etl::get_if<EA<i>>(&cv);
+                    static_assert(std::is_same_v<decltype(pt), EA<i>*> && std::is_same_v<decltype(pct), EA<i> const*>);
+                    ceq(cx, "C07", "get_if<T>(variant*)", cls, cat("get_if<", aname<EA<i>>(), "> null-ness"), pt == nullptr, pm == nullptr);
+                    ceq(cx, "C07", "get_if<T>(variant*)", cls, cat("get_if<", aname<EA<i>>(), "> const null-ness"), pct == nullptr, pm == nullptr);
+                    if (pm != nullptr && pt != nullptr && pct != nullptr) {
+                        ceq(cx, "C07", "get_if<T>(variant*)", cls, "all accessors refer to one object", pt == pct && pt == pi, true);
+                    }
+                    ceq(cx, "C07", "get_if<T>(variant*)", "null_pointer", "get_if<T>(nullptr)", etl::get_if<EA<i>>(nv) == nullptr && etl::get_if<EA<i>>(ncv) == nullptr, true);
+                }
             };
             (one(std::integral_constant<std::size_t, I>{}), ...);
         }(std::make_index_sequence<N>{});
@@ -690,17 +739,35 @@ int main(int argc, char** argv)
 #if !defined(MC_PART) || MC_PART == 1
     m.job("variant<int,float>/k3", both, [](mc::Reporter& r) { explore<VariantSys<3, true, short, int, float>>(r); });
     m.job("variant<int,short,char>/k3", both, [](mc::Reporter& r) { explore<VariantSys<3, true, NoExtra, int, short, char>>(r); });
+    // round 2: duplicate alternative types (index-only menu), 5 alternatives
+    m.job("variant<int,int>/k3", both, [](mc::Reporter& r) { explore<VariantSys<3, true, NoExtra, int, int>>(r); });
+    m.job("variant<int,float,int>/k3", both, [](mc::Reporter& r) { explore<VariantSys<3, true, NoExtra, int, float, int>>(r); });
+    m.job("variant<char,short,int,long,float>/k2", both, [](mc::Reporter& r) { explore<VariantSys<2, false, NoExtra, char, short, int, long, float>>(r); });
 #endif
 #if !defined(MC_PART) || MC_PART == 2
     m.job("variant<int,Tracked>/k3", both, [](mc::Reporter& r) { explore<VariantSys<3, false, short, int, TA>>(r); });
     m.job("variant<TrackedMoveOnly,int>/k3", both, [](mc::Reporter& r) { explore<VariantSys<3, false, NoExtra, TMO, int>>(r); });
+    m.job("variant<Tracked,Tracked>/k3", both, [](mc::Reporter& r) { explore<VariantSys<3, false, NoExtra, TA, TA>>(r); }); // round 2
 #endif
 #if !defined(MC_PART) || MC_PART == 3
     m.job("variant<monostate,Tracked,TrackedB,short>/k3", both, [](mc::Reporter& r) { explore<VariantSys<3, false, NoExtra, etl::monostate, TA, TB, short>>(r); });
+    // round 2: 6 alternatives, a duplicate type among non-trivial ones
+    m.job("variant<monostate,int,Tracked,short,TrackedB,int>/k2", both,
+        [](mc::Reporter& r) { explore<VariantSys<2, false, NoExtra, etl::monostate, int, TA, short, TB, int>>(r); });
 #endif
 #if !defined(MC_PART) || MC_PART == 4
     m.job("variant<int,float>/k4", th, [](mc::Reporter& r) { explore<VariantSys<4, true, short, int, float>>(r); });
     m.job("variant<int,Tracked>/k4", th, [](mc::Reporter& r) { explore<VariantSys<4, false, short, int, TA>>(r); });
+#endif
+#if !defined(MC_PART) || MC_PART == 5
+    // 7-8 alternatives (both ends of the union recursion and of the visit dispatch chain), move-only duplicates
+    m.job("variant<char,short,int,long,float,double,unsigned,longlong>/k2", th,
+        [](mc::Reporter& r) { explore<VariantSys<2, false, NoExtra, char, short, int, long, float, double, unsigned, long long>>(r); });
+    m.job("variant<int x8>/k2", th, [](mc::Reporter& r) { explore<VariantSys<2, true, NoExtra, int, int, int, int, int, int, int, int>>(r); });
+    m.job("variant<TrackedMoveOnly,int,TrackedMoveOnly>/k3", th, [](mc::Reporter& r) { explore<VariantSys<3, false, NoExtra, TMO, int, TMO>>(r); });
+    m.job("variant<short,Tracked,monostate,int,TrackedB,short,Tracked>/k2", th,
+        [](mc::Reporter& r) { explore<VariantSys<2, false, NoExtra, short, TA, etl::monostate, int, TB, short, TA>>(r); });
+    m.job("variant<int,int>/k4", th, [](mc::Reporter& r) { explore<VariantSys<4, true, NoExtra, int, int>>(r); });
 #endif
     return m.run();
 }
